@@ -130,7 +130,7 @@ func ruleOpSwitch(p *Prog, r *Report) {
 			// operator term: a string term whose pool contains comparator spellings
 			opKey := ""
 			var cmpKeys []string
-			for k := range c.terms {
+			for _, k := range c.termKeys() {
 				if strings.HasPrefix(k, "cmp(") {
 					cmpKeys = append(cmpKeys, k)
 				}
@@ -344,14 +344,15 @@ func skipLeaf(c *aeCtx, w *world) bool {
 // checkBoolSwitch: maven-style predicate: two boolean discriminators select among >=, >, <=, <.
 func checkBoolSwitch(p *Prog, r *Report, c *aeCtx, fn *ssa.Function, leaves []tabLeaf, probe string) bool {
 	var bools []string
-	for k, ti := range c.terms {
+	for _, k := range c.termKeys() {
+		ti := c.terms[k]
 		if ti.kind == akBool {
 			bools = append(bools, k)
 		}
 	}
 	sort.Strings(bools)
 	var cmpKey string
-	for k := range c.terms {
+	for _, k := range c.termKeys() {
 		if strings.HasPrefix(k, "cmp(") {
 			cmpKey = k
 		}
